@@ -54,7 +54,8 @@ def gen_history(rng: random.Random) -> Dict[str, Any]:
     t = rng.choice([0.0, 600.0, 1500.0])
     for i in range(rng.choice([10, 20, 40])):
         s = rng.choice(svcs)
-        kind = rng.choice(["qm", "qm", "qu", "mixed", "probe", "legacy", "legacy-qu", "tc", "tc-qu", "resp-new", "resp-refresh", "resp-goodbye", "resp-flush", "qm-known"])
+        kind = rng.choice(["qm", "qm", "qu", "mixed", "probe", "legacy", "legacy-qu", "tc", "tc-qu", "resp-new", "resp-refresh", "resp-goodbye", "resp-flush", "qm-known",
+                           "resp-echo-qu"])
         src = ("10.0.0.%d" % rng.choice([60, 61]), 5353)
         if kind in ("qm", "qu", "mixed", "legacy", "legacy-qu", "tc", "tc-qu", "qm-known"):
             qs = [(rng.choice([s.type, s.name, s.server]), rng.choice([12, 33, 16, 1, 255]),
@@ -73,12 +74,17 @@ def gen_history(rng: random.Random) -> Dict[str, Any]:
             has_qu = bool(wire.parse(data).questions[0].cls & 0x8000)
         else:
             inst = "peer%d.%s" % (rng.randrange(3), T2)
-            ttl = {"resp-new": 4500, "resp-refresh": 4500, "resp-goodbye": 0, "resp-flush": 120}[kind]
+            ttl = {"resp-new": 4500, "resp-refresh": 4500, "resp-goodbye": 0, "resp-flush": 120, "resp-echo-qu": 4500}[kind]
             recs = [(("PTR", T2, (inst,)), ttl if kind != "resp-flush" else 4500, False)]
             if kind in ("resp-new", "resp-flush") or rng.random() < 0.3:
                 recs += [(("SRV", inst, (0, 0, rng.choice([80, 81]), "ph.local.")), 120, True), (("A", "ph.local.", (bytes([10, 0, 0, rng.choice([90, 91])]),)), 120, True)]
             data = R.build_response(recs, id_=rng.randrange(65536))
             has_qu = False
+            if kind == "resp-echo-qu":
+                # a response that echoes a question with the QU bit (the form of a legacy unicast reply): still a response - the
+                # exception the property grants is for *queries* containing a QU question
+                data = wire.build(id_=rng.randrange(65536), flags=0x8400, questions=[(T2, 12, 0x8001)],
+                                  answers=[(T2, 12, 1, 4500, inst), (inst, 33, 0x8001, 120, (0, 0, 82, "ph.local."))])
         events.append({"t": t, "kind": kind, "data": data, "src": src, "has_qu": has_qu})
         t += rng.choice([0, 1, 30, 200, 600, 999, 1000, 1001, 1500])
     return {"layout": layout, "svcs": svcs, "events": events, "self_delay": rng.choice([0.0, 0.0, 1.0, 30.0])}
@@ -159,8 +165,9 @@ def is_tc_query(data: bytes) -> bool:
 
 
 def has_qu(data: bytes) -> bool:
+    """a *query* containing a QU question (the one case for which the property allows a second unicast answer)"""
     m, _ = wire.try_parse(data, strict=False)
-    return bool(m and any(q.cls & 0x8000 for q in m.questions))
+    return bool(m and not m.is_response and any(q.cls & 0x8000 for q in m.questions))
 
 
 def witness_history() -> Dict[str, Any]:
